@@ -924,6 +924,16 @@ pub async fn drive(case: &Case) -> Outcome {
                     let who = if i == 0 { "client" } else { "server" };
                     match &l.terminated_at[i] {
                         None => {
+                            // "told the connection failed instead of hanging" is about a peer that is gone: an endpoint
+                            // that still receives its peer's datagrams (a lossy but live network, up to 90 % loss) has a
+                            // live connection, however slowly it moves. Judged only when nothing has reached the endpoint
+                            // for longer than the effective idle timeout (or the PTO give-up bound) plus 10 s.
+                            let idle_eff = [case.client.idle_ms, case.server.idle_ms].into_iter().filter(|x| *x > 0).min().unwrap_or(60_000) as u64;
+                            let silent_for = completed_at.saturating_sub(g.last_delivered_ms[i]);
+                            if silent_for <= idle_eff + 10_000 && !collapse {
+                                out.stats.bump("probe.alive_at_cap_on_lossy_network");
+                                continue;
+                            }
                             let phase = if collapse { "bottleneck-saturated-at-cap" } else if l.handshaked_at[i].is_some() { "after-handshake" } else { "before-handshake" };
                             out.violate("bounded-failure", format!("conn-never-terminated:{phase}"), format!("{who}: at the cap ({completed_at} ms) the connection has not terminated and {mine:?} are still pending (idle timeouts {}/{} ms)", case.client.idle_ms, case.server.idle_ms), completed_at);
                         }
